@@ -84,3 +84,14 @@ def spec(self, fn, user_context):
                                        defaults=fn.__defaults__, kwdefaults=getattr(fn, '__kwdefaults__', None))
   return transformed_fn, factory.module, factory.source_map
 '''))
+
+  # property C10: "different option sets never alias": the cache sub-key determines EVERY field of the options
+  # the conversion was requested with (with C20: options that differ in a field compare unequal and, being the
+  # key itself, select different cache entries)
+  w.add_class(ClassInfo('ProgramCtx', fields={'options': 'ConversionOptions'}))
+  w.add(Contract(
+      'malt.impl.api.PyToPy.get_caching_key', serves=['C10', 'C20'], types={'ctx': 'ProgramCtx', 'return': 'ConversionOptions'},
+      modifies=[],
+      ensures=['result.recursive == ctx.options.recursive', 'result.user_requested == ctx.options.user_requested',
+               'result.internal_convert_user_code == ctx.options.internal_convert_user_code',
+               'seteq(result.optional_features, ctx.options.optional_features)']))
